@@ -290,11 +290,13 @@ class RunC(RtContract):
 def _bounded_run(self, cx):
     """packrat witness family on the real generated module: evaluations per (rule, position) counted by inline python"""
     from sourcer import Grammar
+    from collections import Counter
     import sys
     bad, tried = [], 0
     log = []
     hdr = 'grammar verif_c07_witness\n' if cx.uses_context else ''
     sys.modules.pop('verif_c07_witness', None)
+    sys.modules.pop('verif_c07_witness2', None)
     g = Grammar(hdr + '```\nLOG = []\ndef tick(name, pos):\n    LOG.append((name, pos))\n    return None\n```\n'
                 'start = (Item* << "x") | (Item* << "y") | [Expect(Item*), Item*, "z"]\n'
                 'Item = `tick("Item", _pos)` >> /a/\n'
@@ -326,7 +328,45 @@ def _bounded_run(self, cx):
         c = Counter(g.LOG)
         if c and max(c.values()) > 1:
             bad.append({'input': text, 'max_evaluations_of_one_rule_at_one_position': max(c.values())})
-    return bad, tried, "witness family: 'a'*n + tail for n in {0, 7, 300, 70000}, exponential family '('*d+'0'+')'*d for d in {3, 12, 18}"
+    # every KIND of outcome is memoised: a value of None (an option that matched nothing), a failure, a failure AT THE END of the input
+    g2 = Grammar(hdr.replace('witness', 'witness2') + '```\nLOG = []\ndef tick(name, pos):\n    LOG.append((name, pos))\n    if len(LOG) > 20000:\n        raise RuntimeError("more than 20000 rule evaluations")\n    return None\n```\n'
+                 'start = [Mark, "a"] | [Mark, "b"] | [Mark, "c"] | [Mark, "d"]\n'
+                 'Mark = `tick("Mark", _pos)` >> Opt("m")\n'
+                 'Nest = "(" >> Nest << ")" << "+" | "(" >> Nest << ")" << "-" | "(" >> Nest << ")" | Leaf\n'
+                 'Leaf = `tick("Leaf", _pos)` >> "x"\n'
+                 'Open = `tick("Open", _pos)` >> "("\n')
+    for text in ('d', 'md', 'c', 'mb', 'z', ''):
+        tried += 1
+        del g2.LOG[:]
+        try:
+            g2.parse(text)
+        except (g2.ParseError, g2.PartialParseError):
+            pass
+        except Exception as e:
+            bad.append({'input': text, 'raised': repr(e)[:100]})
+            continue
+        c = Counter(g2.LOG)
+        if c and max(c.values()) > 1:
+            bad.append({'input': text, 'rule_with_value_None_evaluated_more_than_once_at_a_position': dict((str(k), v) for k, v in c.items() if v > 1)})
+    for depth in (2, 4, 10, 16):
+        for text in ('(' * depth + 'x', '(' * depth, '(' * depth + 'x' + ')' * (depth - 1)):        # truncated input: failures at the end of the input
+            tried += 1
+            del g2.LOG[:]
+            try:
+                g2.Nest.parse(text)
+            except (g2.ParseError, g2.PartialParseError):
+                pass
+            except Exception as e:
+                bad.append({'input': text, 'raised': repr(e)[:100], 'evaluations': len(g2.LOG)})
+                if len(bad) >= 4:
+                    break
+                continue
+            c = Counter(g2.LOG)
+            if c and max(c.values()) > 1:
+                bad.append({'input': text, 'max_evaluations_of_one_rule_at_one_position': max(c.values()), 'evaluations': len(g2.LOG)})
+        if len(bad) >= 4:
+            break
+    return bad[:8], tried, "witness family: 'a'*n + tail for n in {0, 7, 300, 70000}, exponential family '('*d+'0'+')'*d for d in {3, 12, 18}; rules with value None under 4 alternatives; truncated nested input (failures at end of input) of depth 2, 4, 10, 16"
 
 
 RunC.bounded = _bounded_run
